@@ -59,7 +59,7 @@ namespace vcase {
         std::vector<std::thread> th;
         // attach and detach are serialised in thread-index order so that set-up code (thread records of the
         // SMR schemes etc.) is deterministic; they run outside the scheduled region and are not logged
-        std::atomic<int> attach_turn( 0 ), detach_turn( 0 );
+        std::atomic<int> attach_turn( 0 ), detach_turn( 0 ), finished( 0 );
         for ( int t = 0; t < n; ++t )
             th.emplace_back( [&, t] {
                 while ( attach_turn.load() != t ) std::this_thread::yield();
@@ -68,6 +68,9 @@ namespace vcase {
                 vs::worker_begin( t );
                 body( t );
                 vs::worker_end();
+                // detach only when every worker has left the scheduled region: detaching runs SMR scans that free
+                // memory, and reused addresses would change the object ids seen by the workers still running
+                while ( finished.load() != -1 && vs::S().nfinished < n ) std::this_thread::yield();
                 while ( detach_turn.load() != t ) std::this_thread::yield();
                 if ( detach ) detach( t );
                 detach_turn.store( t + 1 );
